@@ -51,11 +51,16 @@ struct Watch {
     /// Node index -> passcode it uses
     passcodes: BTreeMap<usize, u32>,
     window_seen_closed_at: Option<u64>,
+    last_failures: (u8, bool),
 }
 
 impl Watch {
     fn step(&mut self, time: u64, st: &DevState) {
         self.steps += 1;
+        if std::env::var_os("VERIF_DUMP").is_some() && self.last_failures != (st.snap.pase.pake_failures, st.window_open) {
+            eprintln!("t={time} pake_failures={} window_open={}", st.snap.pase.pake_failures, st.window_open);
+        }
+        self.last_failures = (st.snap.pase.pake_failures, st.window_open);
         self.max_failures = self.max_failures.max(st.snap.pase.pake_failures);
         // (d) advertised as commissionable exactly while a window is open
         if st.commissionable_advertised != st.window_open {
@@ -247,6 +252,7 @@ impl Scenario for PaseStorm {
             steps: 0,
             passcodes: passcodes.clone(),
             window_seen_closed_at: None,
+            last_failures: (0, false),
         };
         let mut before_probe: Option<DevState> = None;
         let run = drive_full_with(seed, cfg, &mut |t, states| {
@@ -300,13 +306,17 @@ impl Scenario for PaseStorm {
                     .map(|n| results(&run, n).iter().filter(|(nm, _, _)| *nm == "pase_attempt").count())
                     .sum();
                 out.count("wrong_passcode_attempts", wrong_completed as u64);
-                // In the fault-free family every wrong attempt runs up to the failed proof: 21 or more
-                // of them must have revoked the window (the failure counter is per window)
-                let wrong_failed: usize = (1..=probe_node)
+                // Failed proofs, counted on the wire: every Pake2 the device sent to an initiator
+                // with a wrong passcode is a handshake that got to the proof and cannot pass it
+                // (an attempt answered Busy never got that far and does not count). In the
+                // fault-free family every one of them ends as a failure at the device, and 20 of
+                // them must have revoked the window (the failure counter is per window).
+                let wrong_failed: u64 = (1..=probe_node)
                     .filter(|n| passcodes[n] != GOOD)
-                    .map(|n| results(&run, n).iter().filter(|(nm, r, _)| *nm == "pase_attempt" && *r == 0x2b).count())
+                    .map(|n| run.fired.get(crate::worlds::full_drive::PAKE2_TO[n]).copied().unwrap_or(0))
                     .sum();
-                if !self.faults && wrong_failed >= 21 {
+                out.count("wrong_passcode_proofs", wrong_failed);
+                if !self.faults && wrong_failed >= 20 {
                     out.count("probe_window_revoked_after_20_failures", 1);
                     if watch.window_seen_closed_at.is_none() {
                         out.violate("C02-window-survives-20-failures", describe(&format!("{wrong_failed} failed proofs and the window was never closed")));
@@ -609,6 +619,7 @@ impl Scenario for Pake3Corrupted {
             steps: 0,
             passcodes,
             window_seen_closed_at: None,
+            last_failures: (0, false),
         };
         let mut pase_sessions_seen = 0u64;
         let run = drive_full_with(seed, cfg, &mut |t, states| {
